@@ -17,6 +17,11 @@ class Sched:
         self.run_left = self._next()
         self.switches = 0
         self.steps = 0
+        # first-use targeting: the first time any parso function is entered (by any thread) a short fuse is lit, so that
+        # a switch happens a few lines into it - where one-time initialisation / memoisation is typically half done
+        self.seen_functions = set()
+        self.salt = (schedule[0] if schedule else 1) * 2654435761 & 0xffffffff
+        self.first_use_switches = 0
         self.inside = [False] * n      # thread currently inside BaseParser.parse / Normalizer.walk
         self.contended_switches = 0
         self.tls = threading.local()
@@ -29,8 +34,16 @@ class Sched:
         return 10 ** 9
 
     def tracer(self, frame, event, arg):
-        if not frame.f_code.co_filename.startswith(self.root):
+        code = frame.f_code
+        if not code.co_filename.startswith(self.root):
             return None
+        key = (code.co_filename, code.co_firstlineno)
+        if key not in self.seen_functions:
+            self.seen_functions.add(key)
+            h = (hash(code.co_name) ^ self.salt ^ code.co_firstlineno * 40503) & 0xffff
+            if h % 3 == 0:                      # one third of the first entries
+                self.run_left = 1 + (h >> 4) % 24
+                self.first_use_switches += 1
         return self.local
 
     def local(self, frame, event, arg):
